@@ -171,7 +171,7 @@ impl Check for C17 {
     fn meta(&self) -> Meta {
         Meta {
             level: "exploration",
-            rule: "one run = one generated circuit: key generation under a drawn pool size / task order, repeated on fresh OS threads (fresh HashMap seeds) under other schedules; then storage epochs for vk, pk and params: write with format A through a writer with short writes and EINTR, 'restart', read with compatible format B through a reader with short reads and EINTR, re-serialise and compare; crash epochs keep only a durable prefix and must read as an error; proofs from {original, reloaded} pk are verified with {original, reloaded} vk; downsize(k') is compared with parameters derived for k' from the same secret; unsafe_setup is repeated under another schedule. distinct_nontrivial counts distinct scenario digests in which at least one I/O fault or a non-trivial schedule (pool > 1 or permuted order) actually occurred",
+            rule: "five runs in six: one generated circuit: key generation under a drawn pool size / task order, repeated on fresh OS threads (fresh HashMap seeds) under other schedules; then storage epochs for vk, pk and params: write with format A through a writer with short writes and EINTR, 'restart', read with compatible format B through a reader with short reads and EINTR, re-serialise and compare; crash epochs keep only a durable prefix and must read as an error; proofs from {original, reloaded} pk are verified with {original, reloaded} vk; downsize(k') is compared with parameters derived for k' from the same secret; unsafe_setup is repeated under another schedule. distinct_nontrivial counts distinct scenario digests in which at least one I/O fault or a non-trivial schedule (pool > 1 or permuted order) actually occurred; every 6th run: the keys of a standard-library relation of the operation registry - generated under two schedules (byte-identical), written and read over the faulty disk, re-serialised identically, byte-identical proofs from original and reloaded proving key, all four (pk, vk) combinations verify",
             assumptions: vec![
                 "HashMap iteration order cannot be seeded: each extra key generation runs on a fresh OS thread, so an order dependence shows up with probability >= 1/2 per repetition (6 repetitions)",
                 "RawBytesUnchecked is only read back from undamaged bytes (it is documented as unchecked)",
@@ -201,7 +201,11 @@ impl Check for C17 {
             Tier::Thorough => 8000,
         }
     }
-    fn generate(&self, rng: &mut Prng, tier: Tier, _idx: u64) -> Value {
+    fn generate(&self, rng: &mut Prng, tier: Tier, idx: u64) -> Value {
+        // every 6th run: the keys of a standard-library relation
+        if idx % 6 == 5 {
+            return serde_json::json!({"std": super::stdpipe::gen(rng, tier == Tier::Thorough)});
+        }
         let mut base = c01::gen_scn_k(rng, tier, 8);
         base.witnesses.truncate(1);
         let thorough = tier == Tier::Thorough;
@@ -219,6 +223,12 @@ impl Check for C17 {
         serde_json::to_value(scn).unwrap()
     }
     fn execute(&self, scn: &Value, st: &mut Stats) -> Verdict {
+        if let Some(std) = scn.get("std") {
+            return match serde_json::from_value::<super::stdpipe::StdScn>(std.clone()) {
+                Ok(s) => super::stdpipe::run_c17(&s, st),
+                Err(e) => Verdict::Harness(format!("bad scenario: {e}")),
+            };
+        }
         let s: Scn = match serde_json::from_value(scn.clone()) {
             Ok(s) => s,
             Err(e) => return Verdict::Harness(format!("bad scenario: {e}")),
@@ -226,6 +236,9 @@ impl Check for C17 {
         run(&s, st)
     }
     fn shrink(&self, scn: &Value, _v: &Viol) -> Vec<Value> {
+        if scn.get("std").is_some() {
+            return vec![];
+        }
         let s: Scn = serde_json::from_value(scn.clone()).unwrap();
         let mut out = vec![];
         macro_rules! drop_last {
